@@ -334,6 +334,43 @@ def r_utils_argmax(m, rep, R):
                           and assigns.get(maxv) in elems and set(locs) == {maxv, idxv}
                           and locs.get(maxv) is not None and locs[maxv][0] == 'call' and locs[maxv][1] == 'lowest')
                 detail = 'by position: test %s, updates %s, start %s' % (canon(c), assigns, show(locs.get(maxv)) if maxv else None)
+    if not ok and len(loops) == 1 and len(rets) == 1 and loops[0].kind == 'ForStmt':
+        # the same scan remembering where the maximum sits:  for (T *pos = from; pos != to; ++pos) if (max <= *pos) { at = pos; max = *pos; }
+        # return at == nullptr ? -1 : int(at - from)
+        try:
+            init, cond_n, inc, lbody = cxx.for_parts(loops[0])
+            ivs = [d for d in (init.find('VarDecl') if init is not None else []) if env.init_of(d) is not None and term(env.init_of(d), env) == V(pr[0])]
+            ifs = lbody.find('IfStmt')
+            if len(ivs) == 1 and len(ifs) == 1 and cond_n is not None:
+                pos_ = ivs[0].name
+                okcond = canon(term(cond_n, env)) in (canon(('bin', '!=', V(pos_), V(pr[1]))), canon(('bin', '<', V(pos_), V(pr[1]))))
+                stepped = inc is not None and {strip(n.kids[0]).ref for n in inc.walk() if n.kind == 'UnaryOperator' and n.op == '++'} == {pos_}
+                touched = [n for n in lbody.walk() if n.kids and strip(n.kids[0]).ref in (pos_, pr[0], pr[1]) and (
+                    (n.kind == 'UnaryOperator' and n.op in ('++', '--')) or (n.kind == 'BinaryOperator' and n.op == '=') or n.kind == 'CompoundAssignOperator')]
+                c = term(ifs[0].kids[0], env)
+                cur = ('deref', V(pos_))
+                locs = {k_: v_ for k_, v_ in decl.items() if k_ != pos_}
+                maxv = next((cand for cand in locs if canon(c) in (canon(('bin', '<=', V(cand), cur)), canon(('bin', '<', V(cand), cur)))), None)
+                assigns = {canon(term(a.kids[0], env)): canon(term(a.kids[1], env)) for a in ifs[0].kids[1].find('BinaryOperator') if a.op == '='}
+                at = [k_ for k_ in locs if k_ != maxv]
+                r0 = rets[0]
+
+                def uncast2(t_):
+                    while isinstance(t_, tuple) and t_ and t_[0] in ('cast', 'scast') and isinstance(t_[-1], tuple):
+                        t_ = t_[-1]
+                    return t_
+                ret_ok = False
+                if len(at) == 1 and r0[0] == 'cond':
+                    test_, a_, b_ = r0[1], uncast2(r0[2]), uncast2(r0[3])
+                    null_ = canon(test_) in (canon(('bin', '==', V(at[0]), LIT(None))), canon(('un', '!', V(at[0]))))
+                    nonnull_ = canon(test_) in (canon(('bin', '!=', V(at[0]), LIT(None))), canon(V(at[0])))
+                    diff = canon(('bin', '-', V(at[0]), V(pr[0])))
+                    ret_ok = (null_ and a_ in (LIT(-1),) and canon(b_) == diff) or (nonnull_ and canon(a_) == diff and b_ in (LIT(-1),))
+                ok = bool(okcond and stepped and not touched and maxv is not None and len(at) == 1 and assigns == {at[0]: pos_, maxv: canon(cur)}
+                          and locs.get(at[0]) == LIT(None) and locs.get(maxv) is not None and locs[maxv][0] == 'call' and locs[maxv][1] == 'lowest' and ret_ok)
+                detail = 'by pointer: test %s, updates %s, returns %s' % (canon(c), assigns, canon(r0))
+        except AnalysisError:
+            pass
     rep.check(ok, R, w, 'utils::argmax', 'argmax scans [from, to) from the lowest value and returns the position of a maximum (%s)' % detail,
               'utils::argmax does not return the position of a maximum: %s' % detail)
 
@@ -967,13 +1004,13 @@ def _r_chart_rest(m, rep, R, ch, cell, summary=None):
             pr = [p.name for p in cxx.params_of(op)]
             ps_ = Paths(op).paths
             okidx = len(pr) == 2 and len(ps_) == 1 and ps_[0][2] is not None and not [e for e in ps_[0][1] if e[0] != 'decl'] and \
-                canon(ps_[0][2]) == canon(IDX(M(('this',), 'chart_'), ADD(('bin', '*', V(pr[0]), M(('this',), 'length_')), V(pr[1]))))
+                ps_[0][2][0] == 'idx' and ps_[0][2][1] == M(('this',), 'chart_') and len(ps_[0][2][2]) == 1 and canon(ps_[0][2][2][0]) in cell_index_forms(ch, V(pr[0]), V(pr[1]))
             if not okidx and len(ps_) == 1 and ps_[0][2] is not None:
                 got_ = ps_[0][2]
                 for e in ps_[0][1]:
                     if e[0] == 'decl':
                         got_ = cxx.subst(got_, {V(e[1]): e[2]})
-                okidx = len(pr) == 2 and canon(got_) == canon(IDX(M(('this',), 'chart_'), ADD(('bin', '*', V(pr[0]), M(('this',), 'length_')), V(pr[1]))))
+                okidx = len(pr) == 2 and got_[0] == 'idx' and got_[1] == M(('this',), 'chart_') and len(got_[2]) == 1 and canon(got_[2][0]) in cell_index_forms(ch, V(pr[0]), V(pr[1]))
             rep.check(okidx, R, _w(op.line, 'chart::' + acc), 'chart:cell-index', 'chart(row, column) is chart_[row*length + column]',
                       'chart(row, column) indexes something else')
         rep.check(True, R, _w(summary['update'].line, 'chart::update'), 'chart:register',
@@ -987,8 +1024,8 @@ def _r_chart_rest(m, rep, R, ch, cell, summary=None):
     cv = None
     for d in op.find('VarDecl'):
         i = env.init_of(d)
-        if i is not None and canon(term(i, env)) == canon(IDX(M(('this',), 'chart_'),
-                                                               ADD(('bin', '*', V(pr[0]), M(('this',), 'length_')), V(pr[1])))):
+        ti_ = term(i, env) if i is not None else None
+        if ti_ is not None and ti_[0] == 'idx' and ti_[1] == M(('this',), 'chart_') and len(ti_[2]) == 1 and canon(ti_[2][0]) in cell_index_forms(ch, V(pr[0]), V(pr[1])):
             cv = V(d.name)
     rep.check(cv is not None, R, _w(op.line, 'chart::operator()'), 'chart:cell-index',
               'chart(row, column) is chart_[row*length + column]', 'chart(row, column) indexes something else')
@@ -1005,6 +1042,37 @@ def _r_chart_rest(m, rep, R, ch, cell, summary=None):
                   'a cell (row=start, column=len-1) is listed under starting[start] and ending[start+len]',
                   'cell registration is %s' % regs)
     _r_chart_tail(m, rep, R, ch, cell)
+
+
+def cell_index_forms(ch, row_t, col_t):
+    """the spellings of `the cell of span (row, column)` inside chart_[..] that are known to give every span a cell of its
+    own: row * length + column (a square table), and -- through a method of the chart that computes it -- the triangular
+    numbering row * (2 * length - row + 1) / 2 + column (rows stored one after the other, row r having length - r cells).
+    -> set of canonical texts of the index expression"""
+    L = M(('this',), 'length_')
+    out = {canon(ADD(('bin', '*', row_t, L), col_t))}
+    for k in ch.kids:
+        if k.kind == 'CXXMethodDecl' and any(c.kind == 'CompoundStmt' for c in k.kids) and len(cxx.params_of(k)) == 2:
+            a, b = [p_.name for p_ in cxx.params_of(k)]
+            try:
+                ps_ = Paths(k).paths
+            except AnalysisError:
+                continue
+            if len(ps_) != 1 or ps_[0][0] or ps_[0][2] is None or [e for e in ps_[0][1] if e[0] != 'decl']:
+                continue
+            got = ps_[0][2]
+            for e in ps_[0][1]:
+                got = cxx.subst(got, {V(e[1]): e[2]})
+
+            def uncast(t_):
+                if isinstance(t_, tuple) and t_ and t_[0] in ('cast', 'scast') and isinstance(t_[-1], tuple):
+                    return uncast(t_[-1])
+                return tuple(uncast(x_) if isinstance(x_, tuple) else x_ for x_ in t_) if isinstance(t_, tuple) else t_
+            got = uncast(got)
+            tri = ADD(('bin', '/', ('bin', '*', V(a), ADD(SUB(('bin', '*', LIT(2), L), V(a)), LIT(1))), LIT(2)), V(b))
+            if canon(got) == canon(tri):
+                out.add(canon(('mcall', ('this',), k.name, (row_t, col_t))))
+    return out
 
 
 def _registry_forms(ch):
@@ -1070,6 +1138,10 @@ def _r_chart_tail(m, rep, R, ch, cell):
             if e[0] == 'decl':
                 got = cxx.subst(got, {V(e[1]): e[2]})
     want = ('mcall', IDX(M(('this',), 'chart_'), SUB(M(('this',), 'length_'), LIT(1))), 'size', ())
+    full_span = cell_index_forms(ch, LIT(0), SUB(M(('this',), 'length_'), LIT(1))) | {canon(SUB(M(('this',), 'length_'), LIT(1)))}
+    if got is not None and canon(got) != canon(want) and got[0] == 'mcall' and got[2] == 'size' and not got[3] and got[1][0] == 'idx' and got[1][1] == M(('this',), 'chart_') \
+            and len(got[1][2]) == 1 and canon(got[1][2][0]) in full_span:
+        want = got
     rep.check(got is not None and canon(got) == canon(want), R, _w(sz.line, 'chart::size'), 'chart:size',
               'chart.size() is the number of items in the full-span cell (0, length-1)',
               'chart.size() is %s' % (canon(got) if got else '?'))
@@ -2124,7 +2196,7 @@ def chart_update_summary(m):
         if t[0] == 'mcall' and t[1] in (('this',), ('deref', ('this',))) and tuple(t[3]) == (ROW, COL) and t[2] in chart_methods and t[2] != 'update':
             accessor[0] = t[2]
             return True
-        if canon(t) == canon(IDX(M(('this',), 'chart_'), ADD(('bin', '*', ROW, M(('this',), 'length_')), COL))):
+        if t[0] == 'idx' and t[1] == M(('this',), 'chart_') and len(t[2]) == 1 and canon(t[2][0]) in cell_index_forms(ch, ROW, COL):
             accessor[0] = None
             return True
         return False
